@@ -1,5 +1,6 @@
 import ServlinVerif.Props.C01
 import ServlinVerif.Props.C01Bound
+import ServlinVerif.Props.HeadTable
 open Servlin.C01
 #print axioms C01_total
 #print axioms C01_sched_irrelevant
@@ -9,3 +10,5 @@ open Servlin.C01
 #print axioms findSlice_eq_firstBlankLine
 #print axioms Servlin.HeadModel.readHeadOp_eq_D
 #print axioms C01_reads_bounded
+#print axioms Servlin.HeadTable.headBytes_match
+#print axioms Servlin.HeadTable.headBytes_classes
